@@ -77,13 +77,14 @@ let state_eq t (a : sx) (b : sx) : bool =
            || (show_cmap mv_inst (cmap_sx mv_inst a) = show_cmap mv_inst (cmap_sx mv_inst b))
   | "mapor" -> cmap_eqb orswot_dec (cmap_sx or_inst a) (cmap_sx or_inst b)
   | "mapmm" -> let i = map_inst mv_inst in cmap_eqb i.v_dec (cmap_sx i a) (cmap_sx i b)
+  | "mapmo" -> let i = map_inst or_inst in cmap_eqb i.v_dec (cmap_sx i a) (cmap_sx i b)
   | "glist" -> glist_sx a = glist_sx b
   | "list" -> clist_eqb (clist_sx a) (clist_sx b)
   | "merkle" -> merkle_eqb (merkle_sx a) (merkle_sx b)
   | _ -> show_sx a = show_sx b
 
 let order_free t = List.mem t ["vclock"; "gcounter"; "pncounter"; "gset"; "maxreg"; "minreg"; "lww"; "glist"; "merkle"; "mvreg"]
-let is_map t = List.mem t ["mapmv"; "mapor"; "mapmm"]
+let is_map t = List.mem t ["mapmv"; "mapor"; "mapmm"; "mapmo"]
 
 (* which delivery disciplines a type promises to tolerate *)
 let discipline_ok () =
@@ -194,7 +195,7 @@ let has_pending (s : sx) : bool =
   go s
 
 let generic_call pre_ fn a =
-  let ordered_type = List.mem !ty ["orswot"; "list"; "mapmv"; "mapor"; "mapmm"] in
+  let ordered_type = List.mem !ty ["orswot"; "list"; "mapmv"; "mapor"; "mapmm"; "mapmo"] in
   match fn, a with
   | "validate_op", (s :: o :: rest) when ordered_type && pre_ = !ty ->
       let verdict = (match List.rev rest with v :: _ -> v | [] -> A "ok") in
@@ -343,7 +344,7 @@ let ctx_call pre_ fn a =
          count p;
          if not (vc_eqb expect_clock got) then
            report p (Printf.sprintf "read context %s is not the join of the applied write clocks %s" (show_vc got) (show_vc expect_clock))) ["C06"; "C07"]
-   | ("read" | "read_ctx" | "contains" | "get" | "len" | "is_empty"), _ when List.mem pre_ ["orswot"; "mvreg"; "mapmv"; "mapor"; "mapmm"] && pre_ = !ty ->
+   | ("read" | "read_ctx" | "contains" | "get" | "len" | "is_empty"), _ when List.mem pre_ ["orswot"; "mvreg"; "mapmv"; "mapor"; "mapmm"; "mapmo"] && pre_ = !ty ->
        (match List.rev a with r :: _ -> check_ctx r; check_add a r | [] -> ())
    | ("iter" | "keys" | "values"), _ when pre_ = !ty ->
        (match List.rev a with L (A "L" :: rs) :: _ -> List.iter (fun r -> check_ctx r; check_add a r) rs | _ -> ())
@@ -429,11 +430,12 @@ let spec_check (know : int list) (s : sx) =
                                   (List.mem m (nset_to_list (oread st).rval)) (c04_member h k m))
           (List.mem m (nset_to_list (oread st).rval) = c04_member h k m)) [0; 1; 2]
   | "mvreg" -> cmp "C06" show_mv mv_perm_eqb (mvspec (history_of mvop_sx) k) (mv_sx s)
-  | "mapmv" | "mapor" | "mapmm" ->
+  | "mapmv" | "mapor" | "mapmm" | "mapmo" ->
       (* key-level specification of Map (spec/MapSpec.v): map clock, key set, entry clocks *)
       let ok = (match !ty with
         | "mapmv" -> mkeyspec_ok (history_of (mop_sx mv_inst)) k (cmap_sx mv_inst s)
         | "mapor" -> mkeyspec_ok (history_of (mop_sx or_inst)) k (cmap_sx or_inst s)
+        | "mapmo" -> mkeyspec_ok (history_of (mop_sx (map_inst or_inst))) k (cmap_sx (map_inst or_inst) s)
         | _ -> mkeyspec_ok (history_of (mop_sx (map_inst mv_inst))) k (cmap_sx (map_inst mv_inst) s)) in
       (* C09: a key whose every applied update is covered by an applied remove stays absent
          (theorem C09_map_removed_key_stays_absent) *)
@@ -441,6 +443,8 @@ let spec_check (know : int list) (s : sx) =
          | "mapmv" -> let os = known_ops (history_of (mop_sx mv_inst)) k and st = cmap_sx mv_inst s in
                       List.for_all (fun (key, _) -> not (vis_empty (mspec_entry_clock os key))) (nmap_to_list st.mentries)
          | "mapor" -> let os = known_ops (history_of (mop_sx or_inst)) k and st = cmap_sx or_inst s in
+                      List.for_all (fun (key, _) -> not (vis_empty (mspec_entry_clock os key))) (nmap_to_list st.mentries)
+         | "mapmo" -> let os = known_ops (history_of (mop_sx (map_inst or_inst))) k and st = cmap_sx (map_inst or_inst) s in
                       List.for_all (fun (key, _) -> not (vis_empty (mspec_entry_clock os key))) (nmap_to_list st.mentries)
          | _ -> let os = known_ops (history_of (mop_sx (map_inst mv_inst))) k and st = cmap_sx (map_inst mv_inst) s in
                 List.for_all (fun (key, _) -> not (vis_empty (mspec_entry_clock os key))) (nmap_to_list st.mentries)) in
